@@ -1149,6 +1149,57 @@ def h_canon(st):
 
 # ---------------------------------------------------------------------------------------------
 
+# ---------------------------------------------------------------------------------------------
+# object history of ONE Wavefront across planes: propagate, resize in place (pad2d / crop), propagate back -- the reported sample
+# spacing of the result is the physical one for the array that was actually transformed (lam f / (N_now dx_now)), whatever the object
+# went through before
+
+def run_resize_roundtrip(case, seed, R):
+    n, Q, rz, direction = case['n'], case['Q'], case['resize'], case['dir']
+    wvl, efl, dx0 = H_WVL, H_EFL, H_DXP
+    x = tilted_pupil(n, n, 1, 0) if direction == 'focus-first' else (np.eye(n) + 0j)
+    w = Wavefront(x.copy(), wvl, dx0, 'pupil' if direction == 'focus-first' else 'psf')
+    first, second = (w.focus, 'unfocus') if direction == 'focus-first' else (w.unfocus, 'focus')
+    mid = R.call(first, efl, Q, sig='resize-history:first-propagation:exception')
+    if mid is FAILED:
+        return
+    npad = np.shape(mid.data)[0]
+    dx_mid = scalar(R, getattr(mid, 'dx', None), 'resize-history:dx')
+    if dx_mid is None:
+        return
+    R.expect_close(dx_mid, wvl * efl / (npad * dx0), 64 * EPS * dx_mid, 'resize-history:first-dx', f'dx after the first propagation of a {n}-sample plane at Q={Q}')
+    kind, arg, inplace = rz
+    obj = mid
+    if kind == 'pad':
+        obj = R.call(mid.pad2d, arg, inplace=inplace, sig='resize-history:pad2d:exception')
+    elif kind == 'pad_to':
+        obj = R.call(mid.pad2d, 1, out_shape=(npad + arg, npad + arg), inplace=inplace, sig='resize-history:pad2d:exception')
+    elif kind == 'crop':
+        obj = R.call(mid.crop, max(npad - arg, 1), inplace=inplace, sig='resize-history:crop:exception')
+    if obj is FAILED:
+        return
+    nnow = np.shape(obj.data)[0]
+    back = R.call(getattr(obj, second), efl, 1, sig='resize-history:second-propagation:exception')
+    if back is FAILED:
+        return
+    dxb = scalar(R, getattr(back, 'dx', None), 'resize-history:dx')
+    if dxb is None:
+        return
+    sig = f'Wavefront.{second}:after-{kind}{"-inplace" if inplace and kind != "none" else ""}:dx'
+    R.expect_close(dxb, wvl * efl / (nnow * dx_mid), 64 * EPS * abs(dxb), sig,
+                   f'dx reported by {second}(efl, Q=1) after {direction.split("-")[0]}(Q={Q}) and {kind}({arg}, inplace={inplace}): the transformed array has {nnow} samples of {dx_mid}')
+    cv = R.call(lambda: back.intensity.x, sig='resize-history:coords:exception', hygiene=False)
+    if cv is not FAILED:
+        R.expect_close(np.asarray(cv)[0], ax(nnow) * wvl * efl / (nnow * dx_mid), 8 * EPS * nnow * abs(dxb) + 1e-300, sig + ':coords', 'x coordinates of the result')
+    if kind == 'none' and direction == 'focus-first' and float(Q).is_integer():
+        got = as_array(R, back.data, 'resize-history:roundtrip')
+        if got is not None and got.shape[0] == npad:
+            lo = npad // 2 - n // 2
+            R.expect_close(got[lo:lo + n, lo:lo + n], x, 2e3 * EPS, 'resize-history:roundtrip', 'unfocus(focus(x, Q), 1) restricted to the original window')
+    R.nontrivial()
+    R.outcome(f'{direction}:{kind}')
+
+
 def plan(tier, seed):
     quick = tier == 'quick'
     NS = list(range(2, 10))
@@ -1227,6 +1278,11 @@ def plan(tier, seed):
                   f'Wavefront.focus with Q in {QN} (next to a whole number, never equal) x N x 2 unit sets x all tilts: the closed form at the reported coordinates of whatever grid comes back', reset=rs),
         ScopeUnit('unfocus_near_whole_Q', uq_cases, run_unfocus_fft,
                   'the same Q alphabet through Wavefront.unfocus, every source position', reset=rs),
+        ScopeUnit('resize_roundtrip', [{'n': n, 'Q': Q, 'resize': rz, 'dir': d} for n in (4, 5, 6) for Q in (1, 2, 1.5) for d in ('focus-first', 'unfocus-first')
+                                       for rz in (['none', 0, True], ['pad', 2, True], ['pad', 2, False], ['pad_to', 3, True], ['crop', 1, True], ['crop', 2, False], ['crop', 2, True])],
+                  run_resize_roundtrip,
+                  'ONE Wavefront across planes: n in {4,5,6} x Q in {1,2,1.5} x {focus then unfocus, unfocus then focus} x resize between the two {none, pad2d(2) in / out of place, pad2d to +3 samples, crop by 1 / 2 in / out of place}, '
+                  'second propagation at the same efl with Q=1: the dx (and x coordinates) it reports are lam f / (N_now dx_now) of the array actually transformed; unresized integer-Q round trips return the pupil', reset=rs),
         HistoryUnit('size_history', size_inits(quick), s_fresh, s_events, s_apply, s_check, s_canon, 2 if quick else 3,
                     'BFS (depth 2 quick = every ordered pair, 3 thorough) on the SHARED czt / mdft executors without clear(): per initial state one fixed pair of spacings and a family of sizes whose '
                     'n_in + n_out - 1 share a fast FFT length (5->{9,10,8}, 9->{15,16}, 10->{28,29,31}; thorough also 48->{72,66,67,70}); events: fixed pupil -> every output count, every pupil size -> fixed output count, '
